@@ -203,6 +203,23 @@ Section ExtractProofs.
     rewrite extract_bytes_exact. destruct (file_frames d); split; intros; try reflexivity; discriminate.
   Qed.
 
+  (* whatever lay at the output location before, the output file afterwards is the extraction of this input *)
+  Theorem extract_over_output save_index prior d :
+    fst (fst (extract_over p1 save_index prior d)) = match file_frames d with [] => None | _ => Some (spec_output d) end /\
+    snd (extract_over p1 save_index prior d) = spec_count d /\
+    (save_index = true -> file_frames d <> [] -> snd (fst (extract_over p1 save_index prior d)) = fresh_saved p1 (spec_output d)).
+  Proof.
+    unfold extract_over. cbn [fst snd]. split; [apply extract_bytes_exact|]. split; [apply extract_count|].
+    intros -> Hne. pose proof (extract_bytes_exact d) as Hb.
+    destruct (file_frames d) as [|f0 fs0] eqn:E; [congruence|].
+    rewrite (extract_index_fresh d (spec_output d) Hb).
+    unfold fresh_saved, save. destruct (last_opt (fresh p1 (spec_output d))) eqn:El; [reflexivity|].
+    exfalso. assert (Hf : fresh p1 (spec_output d) = []).
+    { destruct (fresh p1 (spec_output d)) as [|a l]; [reflexivity|]. exfalso. clear - El. revert a El.
+      induction l as [|b l IH]; intros a El; [discriminate|]. apply (IH b). exact El. }
+    unfold fresh, fresh_raw in Hf. rewrite frames_of_output, E in Hf. destruct f0. discriminate.
+  Qed.
+
   Theorem no_messages_nothing_written d :
     file_frames d = [] -> extract p1 d = mkXR None None 0 [].
   Proof. intros H. rewrite extract_refines. unfold extract_spec. rewrite H. reflexivity. Qed.
